@@ -22,6 +22,11 @@ args = sys.argv[1:]
 BENIGN = args[:1] == ["--benign"]
 if BENIGN:
     args = args[1:]
+OWN = False
+if args[:1] == ["--own"]:
+    # seeds only: run just the seed's own property (regression run after rule changes; other properties' results are kept)
+    OWN = True
+    args = args[1:]
 TARGETED = False
 if args[:1] == ["--targeted"]:
     # run, per patch, only the checks whose rules read the files the patch touches (and, for seeds, the seed's own property)
@@ -74,7 +79,7 @@ for eng in ("hx-mir", "hx-ast"):
     shutil.copy2(os.path.join(V, "engines", eng, "target", "debug", eng), os.path.join(SNAP, "engines", eng, "target", "debug", eng))
 res = {}
 rp = os.path.join("selftest", "BENIGN_RESULTS.json") if BENIGN else os.path.join("seeded", "RESULTS.json")
-if os.path.exists(rp) and args:
+if os.path.exists(rp) and (args or OWN or TARGETED):
     res = json.load(open(rp))
 lock = threading.Lock()
 todo = list(seeds)
@@ -133,14 +138,23 @@ def worker(i):
                         hits["C10/thorough"] = [l.strip()[:240] for l in out.stdout.splitlines() if l.strip().startswith("violated")][:12] or [out.stderr[-200:]]
                 with lock:
                     res[s] = {"false_alarms": hits}
+                    json.dump({k: res[k] for k in sorted(res)}, open(rp, "w"), indent=1)
                     print("%-30s %s" % (s, "silent" if not hits else "FALSE ALARM: " + "; ".join("%s(%s)" % (k, (v[0] if v else "")[:120]) for k, v in hits.items())), flush=True)
                 continue
             mp = os.path.join(V, "seeded", s, "meta.json")
             tier = json.load(open(mp)).get("tier", "quick") if os.path.exists(mp) else "quick"
             own = s.split("-")[0]
-            hits = run_checks(env, tier, only=props_for(patch, own) if TARGETED else None)
+            hits = run_checks(env, tier, only=[own] if OWN else props_for(patch, own) if TARGETED else None)
             with lock:
-                res[s] = {"caught_by": sorted(hits), "own_property_alarm": own in hits, "detail": hits}
+                if OWN and isinstance(res.get(s), dict) and "caught_by" in res[s]:
+                    prev = res[s]
+                    others = [p for p in prev.get("caught_by", []) if p != own]
+                    det = {k: v for k, v in prev.get("detail", {}).items() if k != own}
+                    det.update(hits)
+                    res[s] = {"caught_by": sorted(set(others) | set(hits)), "own_property_alarm": own in hits, "detail": det}
+                else:
+                    res[s] = {"caught_by": sorted(hits), "own_property_alarm": own in hits, "detail": hits}
+                json.dump({k: res[k] for k in sorted(res)}, open(rp, "w"), indent=1)
                 print("%-7s own=%-5s caught_by=%s" % (s, own in hits, ",".join(sorted(hits)) or "-"), flush=True)
         finally:
             subprocess.run(["git", "apply", "-R", patch], cwd=repo, capture_output=True)
